@@ -26,7 +26,7 @@ def _parse(text, n):
             res[cur].append(line.rstrip("\n"))
     return res
 
-def run_binary(cmd, cases, timeout, env=None):
+def run_binary(cmd, cases, timeout, env=None, depth=0):
     """run `cmd` on all cases in one process; isolate crashes/hangs by re-running the rest individually"""
     n = len(cases)
     if n == 0:
@@ -35,21 +35,28 @@ def run_binary(cmd, cases, timeout, env=None):
     res = _parse(so, n)
     if rc == 0 and all(r is not None for r in res):
         return res
-    # something died: the last case that produced a header is the suspect; re-run suspects one by one
-    bad = [i for i, r in enumerate(res) if r is None]
+    # the process died or hung inside one case: the last case that produced a header is the culprit.
+    # Mark it and run the rest of the batch in a fresh process (recursively).
     started = [i for i, r in enumerate(res) if r is not None]
-    suspects = ([started[-1]] if started else []) + bad
-    for i in suspects:
-        rc1, so1, se1 = run(cmd, inp=_format([cases[i]]), timeout=max(20, timeout // 10), env=env)
-        r1 = _parse(so1, 1)[0]
-        if r1 is None:
-            r1 = []
-        if rc1 == -9:
-            r1 = r1 + ["!TIMEOUT"]
-        elif rc1 != 0:
-            tail = [l for l in se1.strip().splitlines() if l.strip()][:3]
-            r1 = r1 + ["!CRASH rc=%d %s" % (rc1, " | ".join(tail)[:300])]
-        res[i] = r1
+    if started:
+        c = started[-1]
+        if not any(l.startswith("!HANG") for l in res[c]):
+            if rc == -9:
+                res[c] = res[c] + ["!TIMEOUT"]
+            else:
+                tail = [l for l in se.strip().splitlines() if l.strip()][:3]
+                res[c] = res[c] + ["!CRASH rc=%d %s" % (rc, " | ".join(tail)[:300])]
+        rest = [i for i in range(c + 1, n)]
+    else:
+        res[0] = ["!CRASH rc=%d before the first case" % rc]
+        rest = [i for i in range(1, n)]
+    if rest and depth < 40:
+        sub = run_binary(cmd, [cases[i] for i in rest], timeout, env, depth + 1)
+        for i, r in zip(rest, sub):
+            res[i] = r
+    for i in range(n):
+        if res[i] is None:
+            res[i] = ["!NOT-RUN"]
     return res
 
 def run_pair(domain, cases, harness_extra=None, timeout=600, jobs=8, chunk=64):
